@@ -397,6 +397,7 @@ type access struct {
 	Held   lockSet
 	Fresh  bool // base object allocated in this function and not yet escaped
 	Kind   string
+	Stale  bool // use of a reference to guarded storage obtained in an EARLIER critical section (the guard was released in between)
 }
 
 // fieldAccesses enumerates reads/writes of the given fields in module code,
@@ -478,7 +479,28 @@ func (p *Program) fieldAccesses(fields map[*types.Var]bool) []access {
 							if detach >= 0 && ui != detach && g.DominatedByNodes(ui, setOf(detach)) {
 								continue
 							}
-							out = append(out, access{Fn: fn, Node: ui, In: d.in, Field: fld, Write: d.write, Held: heldAt(ui), Fresh: fresh, Kind: d.kind})
+							// stale: the guard held when the reference was loaded is released on some path before this use; the
+							// container may have been replaced / emptied meanwhile even if the lock is held again at the use
+							stale := false
+							if ui != ri && len(heldAt(ri)) > 0 {
+								after := g.ReachAfter(ri, nil, nil)
+								for w, win := range g.Nodes {
+									if !after[w] {
+										continue
+									}
+									if _, isCall := win.(*ssa.Call); !isCall {
+										continue
+									}
+									op, lf := lockOp(win)
+									if (op == "Unlock" || op == "RUnlock") && heldAt(ri)[lf] > 0 && g.ReachAfter(w, nil, nil)[ui] && !g.ReachAfter(w, setOf(ri), nil)[ui] == false {
+										// the use is reachable from the unlock without re-loading the reference
+										if g.ReachAfter(w, setOf(ri), nil)[ui] {
+											stale = true
+										}
+									}
+								}
+							}
+							out = append(out, access{Fn: fn, Node: ui, In: d.in, Field: fld, Write: d.write, Held: heldAt(ui), Fresh: fresh, Kind: d.kind, Stale: stale})
 						}
 					}
 				default:
